@@ -2030,6 +2030,9 @@ parse_28_29(vbi_decoder *vbi, uint8_t *p,
 		return FALSE;
 
 	case 1: /* X/28/1, M/29/1 Level 3.5 DRCS CLUT */
+		if (err < 0)
+			return FALSE;
+
 		ext = &cache_network_magazine (vbi->cn, mag8 * 0x100)->extension;
 
 		if (packet == 28) {
